@@ -358,7 +358,12 @@ func RunCheck(opts CheckOpts) *CheckReport {
 			sem <- struct{}{}
 			defer func() { <-sem }()
 			t := time.Now()
-			ans := Solve(o.Query, o.Name, SolverCfg{Timeout: opts.Timeout, Seed: opts.Seed, WorkDir: work, All: opts.Tier == "thorough", Order: o.Order})
+			to := opts.Timeout
+			if o.Probe && opts.Tier != "thorough" && to > 6*time.Second {
+				// vacuity probes decide nothing by themselves: an undecided probe is recorded, not reported
+				to = 6 * time.Second
+			}
+			ans := Solve(o.Query, o.Name, SolverCfg{Timeout: to, Seed: opts.Seed, WorkDir: work, All: opts.Tier == "thorough", Order: o.Order})
 			if o.Expect == "unsat" && ans.Result == "sat" && len(o.Refine) > 0 {
 				// counterexample refinement: re-solve with the exact facts that were abstracted for the proof
 				q2 := *o.Query
